@@ -129,5 +129,21 @@ theorem run_spec (ops : List RegOp) :
     HistInv lower (Registry.run lower ettl ops) (RegSpec.run lower ops) (dirty lower ops) :=
   run_spec_aux lower ettl ops ⟨IndexInv.empty lower, rfl, fun s hs => by simp at hs⟩
 
+
+/-! the specification predicates only read the fields of the services, never the memo slots -/
+
+theorem RespSpec.candidates_clear (s : Svc) (q : Question) :
+    RespSpec.candidates lower ettl s.clearMemo q = RespSpec.candidates lower ettl s q := rfl
+
+theorem RespSpec.preds_clear (svcs : List Svc) (qs : List Question) (known : List Rec) :
+    (∀ a, RespSpec.soundAnswer lower ettl (svcs.map Svc.clearMemo) qs known a = RespSpec.soundAnswer lower ettl svcs qs known a)
+    ∧ (∀ off, RespSpec.complete lower ettl (svcs.map Svc.clearMemo) qs known off = RespSpec.complete lower ettl svcs qs known off)
+    ∧ (∀ p, RespSpec.additionalsOk lower ettl (svcs.map Svc.clearMemo) p = RespSpec.additionalsOk lower ettl svcs p) := by
+  refine ⟨fun a => ?_, fun off => ?_, fun p => ?_⟩
+  · simp only [RespSpec.soundAnswer, List.any_map, Function.comp_def, RespSpec.candidates_clear]
+  · simp only [RespSpec.complete, List.all_map, Function.comp_def, RespSpec.candidates_clear]
+  · simp only [RespSpec.additionalsOk, List.any_map, Function.comp_def]
+    rfl
+
 end
 end Zc
